@@ -60,7 +60,10 @@ ASSUMPTIONS = [
 RULE = ("engine ser. Families: esc* = one div with attribute value and text = s, s ranging over every single "
         "character of a boundary alphabet, every 2-byte UTF-8 sequence with lead byte C2/C3 (alone and next to "
         "a/&/NBSP), all ordered pairs and (reduced) triples of specials, one special at every offset 0..70 of an "
-        "ASCII run (memchr block sizes); elem = every raw-text/void/newline-sensitive/ordinary name × "
+        "ASCII run (memchr block sizes); long-* = one special (& < > \" NBSP, a C2-lead char) after a clean ASCII "
+        "run of every length in 0..80, 120..136, 250..262, 508..516, 1020..1028, ~4096, ~65536 (quick thins the "
+        "last two), two specials separated by runs around 8..1025, clean runs of 2/3/4-byte characters with "
+        "shifted alignment, each in attribute and text mode; elem = every raw-text/void/newline-sensitive/ordinary name × "
         "{html,svg,mathml,other,empty ns} × scripting × scopes I/C/N(own name) + foreign scope names; scope = every "
         "node kind as root × scopes × create_missing_parent; attrns = every attribute namespace × local names; "
         "ops = every Serializer call sequence of length ≤ 3 over 6 calls × create_missing_parent × 2 scopes, plus "
@@ -379,7 +382,10 @@ def oracle(line, out):
                 return "%s; scope %s, got %r want %r" % (D3, scope, got[:60], want[:60])
         if only_c2_deleted(got, want):
             return "%s; got %r want %r" % (D1, got[:60], want[:60])
-        return "bytes differ from the reference serialisation: got %r want %r" % (got[:80], want[:80])
+        k = next((i for i in range(min(len(got), len(want))) if got[i] != want[i]), min(len(got), len(want)))
+        lo = max(0, k - 12)
+        return ("bytes differ from the reference serialisation (first difference at byte %d of %d/%d): "
+                "got ...%r want ...%r" % (k, len(got), len(want), got[lo:k + 24], want[lo:k + 24]))
     if d.get("io") != "ok":
         return classify_io(t, d.get("io", "r"), scripting)
     rt = d.get("rt")
@@ -448,6 +454,55 @@ def gen_escape(cases):
                 cases.append((esc_case(sp + "a" * k + sp), "esc-offset"))
     for k in range(0, 71):
         cases.append((esc_case("a" * k), "esc-offset"))
+
+
+LONG_SPECIALS = ["&", "<", ">", '"', "\u00a0", "\u00a2"]   # & < > " NBSP and a 0xC2-lead non-NBSP char
+
+
+def _rng_set(*ranges):
+    out = []
+    for a, b in ranges:
+        out.extend(range(a, b + 1))
+    return out
+
+
+def gen_long_runs(cases, quick):
+    """one special after a clean run of every length around every plausible block / window size
+    (attribute and text mode in each case); two specials separated by such runs; runs of multi-byte
+    characters (byte offset != char offset)"""
+    lens = _rng_set((0, 80), (120, 136), (250, 262), (508, 516), (1020, 1028))
+    lens += [4095, 4096, 4097] if quick else _rng_set((4090, 4100))
+    for L in lens:
+        for sp in LONG_SPECIALS:
+            cases.append((esc_case("a" * L + sp), "long-run"))
+            if L % 2 == 0 or not quick:
+                cases.append((esc_case("a" * L + sp + "b<"), "long-run"))
+    huge = [(65535, "&"), (65536, "\u00a2"), (65537, '"')] if quick else \
+        [(L, sp) for L in _rng_set((65530, 65540)) for sp in LONG_SPECIALS]
+    for L, sp in huge:
+        cases.append((esc_case("a" * L + sp), "long-run-huge"))
+    # two specials separated by a clean run, after nothing / after another clean run
+    gaps = [0, 1, 7, 8, 9, 15, 16, 17, 31, 32, 33, 63, 64, 65, 127, 128, 129, 254, 255, 256, 257, 258,
+            511, 512, 513, 1023, 1024, 1025]
+    for L in gaps:
+        for a in LONG_SPECIALS:
+            for b in LONG_SPECIALS:
+                if quick and (LONG_SPECIALS.index(a) + LONG_SPECIALS.index(b) + L) % 2:
+                    continue
+                cases.append((esc_case(a + "a" * L + b), "long-gap"))
+                cases.append((esc_case("a" * 250 + a + "a" * L + b + "a" * 300 + a), "long-gap"))
+    # clean runs of 2-, 3- and 4-byte characters: n chars = 2n / 3n / 4n bytes
+    ns = _rng_set((0, 90), (120, 136), (165, 175), (250, 262), (336, 346), (508, 516))
+    for ch in ["\u00e9", "\u20ac", "\U0001f600"]:
+        for n in ns:
+            for sp in (LONG_SPECIALS[::2] if quick and n % 2 else LONG_SPECIALS):
+                cases.append((esc_case(ch * n + sp), "long-multibyte"))
+        # shifted alignment around the 256-byte mark
+        per = len(ch.encode("utf-8"))
+        for k in range(0, 4):
+            for n in range(256 // per - 4, 256 // per + 5):
+                for sp in LONG_SPECIALS:
+                    cases.append((esc_case("a" * k + ch * n + sp + ch), "long-multibyte"))
 
 
 def elem_subject(ns, name):
@@ -670,6 +725,7 @@ def gen_parsed(cases, rng, n_random):
 def gen_cases(tier, rng):
     cases = []
     gen_escape(cases)
+    gen_long_runs(cases, tier == "quick")
     gen_elements(cases)
     gen_scopes(cases)
     gen_attr_ns(cases)
